@@ -17,7 +17,7 @@ NA = {
     'C18': 'dump-then-parse fidelity is a function of the tree; the stream/file arguments are incidental and nothing is promised about partial writes',
     'C19': 'copy/pickle fidelity is a function of the tree; nothing is promised about truncated pickles or concurrent mutation',
 }
-PLANNED = ['C07', 'C12', 'C15']
+PLANNED = ['C12', 'C15']
 
 CHECKS = {
     'C20': {
@@ -30,6 +30,11 @@ CHECKS = {
         'note': 'merge semantics are not re-implemented (routes are compared with each other); cwd/HOME are constant during a build; error classes are not compared across routes, only success/failure',
         'technique': 'deterministic simulation: simulated file system with seeded layout/fault plans, route-equivalence + lookup-model + fail-or-exact oracles',
         'ref': 'DESIGN.md 3.2, 4 (C06)'},
+    'C07': {
+        'text': 'taint monitor over simulated runs: every scalar of a generated document is a unique token with a taint (S/U) known from where it is written (source safe flag, class default, !unsafe or safe metadata on/above the node, inclusion by unsafe content via !include / !rec on the simulated file system); 1-2 client threads build at the same time with different safe flags under seeded schedules, sources may fail inside the safe/unsafe window and the builder is used further; merge histories (argument / name / list / node overrides, placeholders, deletions, xref chains, eval code and f-strings reading config names, imports) are the workload. Invariant at every recorder event (call, name resolution, import, eval probe) and over everything executed code produced: no U token; an unsafe dynamic node nothing overwrites must make the build fail with UnsafeError. Sampling, not proof.',
+        'note': 'the monitor flags only what the statement forbids (the library may be more conservative); evaluated code is restricted to the probe rec(token, names...) and name reads; pre-emption points as in C20',
+        'technique': 'deterministic simulation: seeded thread schedules + simulated include I/O + failing sources, taint-monitor invariant on every executed call/import/eval',
+        'ref': 'DESIGN.md 4 (C07)'},
     'C17': {
         'text': 'seeded search over operation-and-fault histories on a two-copy store (built-in dict/list storage vs child map): a Hypothesis stateful machine (one PRNG value per simulated run, database off) generates and shrinks sequences of all listed public mutators with in-range / out-of-range / negative / non-integer indices, missing and forbidden keys, unconvertible values, iterators that raise after k items and mappings whose items() raises; after every step a plain dict/list model and the cross-view invariants (same keys, same order, same objects, every entry a node, children 0..n-1, walk==lookup, path text round trip, evaluation == model) are checked; a failed operation must leave the pre-state or, for extend/update, a prefix. Sampling, not proof.',
         'note': 'no asynchronous exceptions are injected; slices/sort/reverse/+=/popitem are outside the statement; operations without a Python-defined result (set_child beyond the end of a list, rename_child) are checked against the invariants only',
